@@ -1,7 +1,52 @@
-(* C03 — property theorems only. *)
+(* C03 — property theorems only.  Proofs live in Proofs/Diff*.v.
+   All statements hold for EVERY rule matcher [rmatch] (the pipeline instantiates it with the
+   shared row-pattern compiler of Model/Pattern.v), every rulebook built from the
+   default / %ordered / %rewrite diff logics, and config trees of any depth and width
+   whose sibling rows are distinct ([wf]: what a Python dict guarantees). *)
 From Coq Require Import List String Bool Arith.
-From Annet Require Import Base.Str Base.Tree Model.Rulebook Model.Diff Spec.P_C03 Proofs.DiffBasics.
+From Annet Require Import Base.Str Base.Tree Model.Rulebook Model.Diff Spec.P_C03 Proofs.DiffBasics
+     Proofs.DiffProofs.
 Import ListNotations.
+Open Scope string_scope.
+
+(* Ops are exact at every depth (ADDED => absent from old and present in new, REMOVED =>
+   present in old and absent from new, AFFECTED/MOVED/UNCHANGED => on both sides), every row the
+   rulebook knows is accounted for exactly once on each level (so dropping the ADDED entries
+   gives old|R and dropping the REMOVED ones gives new|R, nesting intact), every entry carries
+   the rule and key of its row, and an UNCHANGED entry has only UNCHANGED descendants. *)
+Theorem C03_lossless :
+  forall rmatch rs old new, wf old -> wf new ->
+    lossless (annot_f rmatch rs old) (annot_f rmatch rs new) (make_diff rmatch rs old new) = true.
+Proof. exact diff_lossless. Qed.
+Print Assumptions C03_lossless.
+
+(* comparing a configuration with itself reports no change at any depth *)
+Theorem C03_self_empty :
+  forall rmatch rs x, wf x -> strip_unchanged (make_diff rmatch rs x x) = [].
+Proof. exact diff_self_empty. Qed.
+Print Assumptions C03_self_empty.
+
+(* rows of %ordered rules appear in the diff in new's order, at every depth *)
+Theorem C03_ordered_in_new_order :
+  forall rmatch rs old new, wf old -> wf new ->
+    order_ok (annot_f rmatch rs new) (make_diff rmatch rs old new) = true.
+Proof. exact diff_order_ok. Qed.
+Print Assumptions C03_ordered_in_new_order.
+
+(* MOVED characterisation (top level of an %ordered group): a surviving row is MOVED iff the
+   prefix of new up to and including it deviates from the same-length prefix of old *)
+Theorem C03_moved_iff_prefix_deviates :
+  forall rmatch rs old new, wf old -> wf new ->
+    moved_ok_top (annot_f rmatch rs old) (annot_f rmatch rs new) (make_diff rmatch rs old new) = true.
+Proof. exact diff_moved_ok. Qed.
+Print Assumptions C03_moved_iff_prefix_deviates.
+
+(* the predicate the check evaluates on the implementation's make_diff outputs holds of the model *)
+Theorem C03_P_holds_of_model :
+  forall rmatch rs old new, wf old -> wf new ->
+    P_C03 rmatch (rs, old, new) (make_diff rmatch rs old new) = true.
+Proof. exact diff_P_C03. Qed.
+Print Assumptions C03_P_holds_of_model.
 
 (* strip_unchanged is a projection: the stripped diff shown to the operator is stable *)
 Theorem C03_strip_idem : forall d, strip_unchanged (strip_unchanged d) = strip_unchanged d.
